@@ -22,14 +22,15 @@ LMS = ['FORK', 'MPIRUN', 'MPIEXEC', 'SRUN', 'APRUN', 'CCMRUN', 'IBRUN', 'PRTE', 
 
 
 def hname(i):
-    return {0: 'localhost', 1: 'thishost'}.get(i, 'n%03d' % i)
+    # unpadded numbering: node1 is a prefix of node10, node11, node100 (names must be compared whole)
+    return 'localhost' if i == 0 else 'node%d' % i
 
 
 def hid(s):
     s = s.strip()
     if s == 'localhost': return 0
-    if s == 'thishost':  return 1
-    return int(s[1:])
+    assert s.startswith('node'), s
+    return int(s[4:])
 
 
 class RMInfoStub(dict):
@@ -60,7 +61,7 @@ def make_lm(rp, lm, cfg, sbox):
     o._rm_info = RMInfoStub(cfg.get('cpn', 8), cfg.get('node_idx', list(range(2, 10))))
     info = {'env': {}, 'env_sh': 'env/lm_%s.sh' % lm.lower(), 'command': lm.lower()}
     if lm == 'FORK':
-        o.node_name = 'thishost'
+        o.node_name = hname(cfg.get('self', 1))
     if lm == 'MPIRUN':
         info.update({'mpt': bool(cfg.get('mpt')), 'rsh': False, 'ccmrun': 'ccmrun' if cfg.get('ccmrun') else '',
                      'dplace': 'dplace' if cfg.get('dplace') else '', 'omplace': 'omplace' if cfg.get('mpt') else '',
@@ -237,7 +238,8 @@ def monitor(lm, cfg, t, c):
     got, total = None, None
     if k == 'fork':
         total = 1
-        if not (n == 1 and t['slots'][0]['host'] in (0, 1)) and False: pass
+        # fork starts the process where the executor runs
+        got = {t['slots'][0]['host']: 1} if t['slots'][0]['host'] in (0, cfg.get('self')) else {cfg.get('self'): 1}
     elif k == 'mpirun':
         hosts = c['mpt_hosts'] + c['host'] + (c['hostfile'] or [])
         got = {}
@@ -309,7 +311,7 @@ def gen_task(rng, lm, cfg):
     # ranks of a task are grouped by node, nodes in list order (what the continuous scheduler produces),
     # sometimes shuffled (application supplied placements)
     pool = list(nodes)
-    if lm == 'FORK': pool = rng.choice([[0], [1], [0], [5]])
+    if lm == 'FORK': pool = [rng.choice([0, cfg['self'], cfg['self'], 1, 10, 11, 100, 5])]
     used = {}
     cur = rng.choice(pool)
     for i in range(nslots):
@@ -336,7 +338,7 @@ def gen_task(rng, lm, cfg):
 
 def gen_cfg(rng, lm):
     cfg = {'cpn': rng.choice([4, 8, 16]), 'node_idx': list(range(2, rng.choice([6, 10])))}
-    if lm == 'FORK':   cfg.update({'localhost': 0, 'self': 1})
+    if lm == 'FORK':   cfg.update({'localhost': 0, 'self': rng.choice([1, 10, 11, 12, 100, 5])})
     if lm == 'MPIRUN':
         v = rng.choice(['plain', 'plain', 'mpt', 'dplace', 'ccmrun', 'spectrum'])
         cfg.update({'mpt': v == 'mpt', 'dplace': v == 'dplace', 'ccmrun': v == 'ccmrun', 'spectrum': v == 'spectrum'})
@@ -394,7 +396,8 @@ def run(ctx):
         for i in range(ctx.n(150, 3000)):
             order = rng.sample(LMS, rng.randint(1, 5))
             cfgs  = {lm: gen_cfg(rng, lm) for lm in order}
-            t     = gen_task(rng, rng.choice(order), cfgs[order[0]])
+            lmc   = rng.choice(order)
+            t     = gen_task(rng, lmc, cfgs[lmc])
             rm = object.__new__(ResourceManager)
             rm._log = rpload.NullLog()
             rm._launch_order = list(order)
